@@ -4,7 +4,9 @@ tied to C09.buildGraph in lean/Cellml/Tie/GraphBuild.lean.
 State threaded explicitly: `cache` (self._graph), `ty` (the `.type` attributes of all Variable objects), `graph`.
 Leaves bound here (none of them is decided inside the property):
  * self._graph; nx.DiGraph(); self._name_to_variable.values(); equation.atoms(Variable) (sympy);
-   self.find_variables_and_derivatives([equation.rhs]); lhs.is_Derivative, lhs.free_symbols.pop(), lhs.variables[0]
+   self.find_variables_and_derivatives([equation.rhs]) (a set, in whatever order); sorted(xs, key=str) (the python
+   builtin: a stable sort by the `str` key - that it is APPLIED to the set of references, and where, comes from the
+   source); lhs.is_Derivative, lhs.free_symbols.pop(), lhs.variables[0]
    (sympy); isinstance(equation.rhs, Quantity); str(x); the four VariableType members;
  * v.type = t / v.type: write / read of the explicit type map;
  * graph.add_node / graph.add_edge (networkx; a dict of nodes: re-adding keeps the place). The node attributes
@@ -27,6 +29,7 @@ GROUP = {'name': 'GraphBuild',
                              ('nx.DiGraph()', '(⟨[], []⟩ : Graph)'),
                              ('self._name_to_variable.values()', 'self.variables'),
                              ('equation.atoms(Variable)', '(self.atoms equation)'),
+                             ('sorted(__A, key=str)', '(Py.sortedByStr self.key {A})'),
                              ('self.find_variables_and_derivatives([equation.rhs])', '(self.refsOf equation)'),
                              ('__A.is_Derivative', '(self.isDerivative {A})'),
                              ('__A.free_symbols.pop()', '(self.stateOf {A})'),
